@@ -292,20 +292,49 @@ def SegmentsMatchRows (d1 d2 : FDgm K) (styleOf : Nat → Style) (rows : List (R
       a = Artist.line Axes.given xs ys (styleOf ir.1) none ∧ Joins d1 d2 ir.2.1 ir.2.2.1 xs ys)
     ((indexed 0 rows).filter drawn) segs
 
-/-- **bottleneck matching plot** (`c = s = cos π/4`, i.e. `c·c = 1/2`): the figure is the diagram plot of
-    `[dgm1, dgm2]` on the same axes followed by one segment per row that is not `(-1,-1)`; ALL artists
+/-- the points with finite death, in order: an infinite point is skipped, a finite one kept -/
+theorem finitePart_cons (b : K) (d : Dgm K) :
+    finitePart ((b, none) :: d) = finitePart d ∧
+    ∀ e, finitePart ((b, some e) :: d) = (b, e) :: finitePart d :=
+  ⟨rfl, fun _ => rfl⟩
+
+theorem mem_finitePart (d : Dgm K) (q : K × K) : q ∈ finitePart d ↔ (q.1, some q.2) ∈ d := by
+  unfold finitePart
+  rw [List.mem_filterMap]
+  constructor
+  · rintro ⟨p, hp, h⟩
+    obtain ⟨b, e⟩ := p
+    cases e with
+    | none => simp at h
+    | some e => simp only [Option.map_some, Option.some.injEq] at h; subst h; exact hp
+  · intro h
+    exact ⟨(q.1, some q.2), h, rfl⟩
+
+/-- a diagram without infinite points is its own finite part (the case the theorems covered before) -/
+theorem finitePart_asDgm (d : FDgm K) : finitePart (asDgm d) = d := by
+  induction d with
+  | nil => rfl
+  | cons p t ih =>
+    simp only [asDgm, finitePart, List.map_cons, List.filterMap_cons, Option.map_some] at ih ⊢
+    rw [ih]
+
+/-- **bottleneck matching plot** (`c = s = cos π/4`, i.e. `c·c = 1/2`), for diagrams WITH or without
+    points of infinite death: the figure is the diagram plot of `[dgm1, dgm2]` — all points, infinite
+    deaths on the ∞ line — on the same axes, followed by one segment per row that is not `(-1,-1)`,
+    joining points of the FINITE-DEATH sub-diagrams (what the rows returned by `bottleneck` index; the
+    `(0,0)` placeholder when a diagram has no such point); ALL artists
     are on the GIVEN axes; the row at `np.argmax` of the distance column (the first maximum) is styled
     `matchMax` (solid, width 2, C3), every other row `matchOther` (dashed, width 1, C2). -/
-theorem segments_match_rows {cast : K → K} {c s : K} {d1 d2 : FDgm K} {rows : List (Row K)}
+theorem segments_match_rows {cast : K → K} {c s : K} {d1 d2 : Dgm K} {rows : List (Row K)}
     {labels : List String} {fig : Fig K} (hc : c * c = 1 / 2) (hs : s = c)
     (h : bottleneckMatching cast c s d1 d2 rows labels = .ok fig) :
     ∃ pd segs maxIdx v,
-      plotDiagrams cast (.many [asDgm d1, asDgm d2]) (matchOpts labels) = .ok pd ∧
+      plotDiagrams cast (.many [d1, d2]) (matchOpts labels) = .ok pd ∧
       fig = { pd with artists := pd.artists ++ segs } ∧
       (∀ a ∈ fig.artists, axesOf a = .given) ∧
       ((rows.map fun r => r.2.2)[maxIdx]? = some v ∧ (∀ x ∈ rows.map fun r => r.2.2, x ≤ v) ∧
         ∀ k, k < maxIdx → ∀ x, (rows.map fun r => r.2.2)[k]? = some x → x < v) ∧
-      SegmentsMatchRows (placeholder d1) (placeholder d2)
+      SegmentsMatchRows (placeholder (finitePart d1)) (placeholder (finitePart d2))
         (fun idx => if idx = maxIdx then .matchMax else .matchOther) rows segs ∧
       segs.length = ((indexed 0 rows).filter drawn).length := by
   unfold bottleneckMatching bottleneckMatchingWith at h
@@ -330,16 +359,18 @@ theorem segments_match_rows {cast : K → K} {c s : K} {d1 d2 : FDgm K} {rows : 
             rfl
         · exact hf
 
-/-- **Wasserstein matching plot**: the segments (all green, all on the GIVEN axes, one per row that is not
-    `(-1,-1)`) followed by the diagram plot of the (placeholder-substituted) diagrams on the same axes. -/
-theorem segments_match_rows_wasserstein {cast : K → K} {c s : K} {d1 d2 : FDgm K}
+/-- **Wasserstein matching plot**, for diagrams WITH or without points of infinite death: the segments
+    (all green, all on the GIVEN axes, one per row that is not `(-1,-1)`, joining points of the
+    FINITE-DEATH sub-diagrams) followed by the diagram plot of the UNFILTERED diagrams (an empty one replaced
+    by the `(0,0)` placeholder) on the same axes. -/
+theorem segments_match_rows_wasserstein {cast : K → K} {c s : K} {d1 d2 : Dgm K}
     {rows : List (Row K)} {labels : List String} {fig : Fig K} (hc : c * c = 1 / 2) (hs : s = c)
     (h : wassersteinMatching cast c s d1 d2 rows labels = .ok fig) :
     ∃ pd segs,
-      plotDiagrams cast (.many [asDgm (placeholder d1), asDgm (placeholder d2)]) (matchOpts labels) = .ok pd ∧
+      plotDiagrams cast (.many [placeholderD d1, placeholderD d2]) (matchOpts labels) = .ok pd ∧
       fig = { pd with artists := segs ++ pd.artists } ∧
       (∀ a ∈ fig.artists, axesOf a = .given) ∧
-      SegmentsMatchRows (placeholder d1) (placeholder d2) (fun _ => .wass) rows segs ∧
+      SegmentsMatchRows (placeholder (finitePart d1)) (placeholder (finitePart d2)) (fun _ => .wass) rows segs ∧
       segs.length = ((indexed 0 rows).filter drawn).length := by
   unfold wassersteinMatching wassersteinMatchingWith at h
   split at h
@@ -373,23 +404,94 @@ theorem placeholder_spec (d : FDgm K) :
     | nil => exact absurd rfl h
     | cons a t => rfl
 
+/-- the placeholder shown by the Wasserstein plot, and why filtering after it changes nothing -/
+theorem placeholderD_spec (d : Dgm K) :
+    (d = [] → placeholderD d = [(0, some 0)]) ∧ (d ≠ [] → placeholderD d = d) ∧
+    placeholder (finitePart (placeholderD d)) = placeholder (finitePart d) := by
+  refine ⟨?_, ?_, ?_⟩
+  · rintro rfl; rfl
+  · intro h; cases d with
+    | nil => exact absurd rfl h
+    | cons a t => rfl
+  · cases d with
+    | nil => rfl
+    | cons a t => rfl
+
 /-- the real constants: `c = cos (π/4)`, `s = sin (π/4)` satisfy the hypotheses of the two theorems above -/
 theorem real_constants :
     Real.cos (Real.pi / 4) * Real.cos (Real.pi / 4) = 1 / 2 ∧
     Real.sin (Real.pi / 4) = Real.cos (Real.pi / 4) :=
   ⟨cos_pi_div_four_mul_self, sin_pi_div_four_eq_cos⟩
 
-/-- non-vacuity of the two matching theorems at `ℝ` with the real constants: rows of all three kinds and
-    a `(-1,-1)` row; an empty first diagram for the Wasserstein plot -/
-example : (∃ fig, bottleneckMatching (α := ℝ) id (Real.cos (Real.pi / 4)) (Real.sin (Real.pi / 4))
-      [(0, 1), (2, 5)] [(1, 3)] [(0, -1, 1 / 2), (-1, 0, 1), (-1, -1, 0), (1, 0, 2)] ["a", "b"] = .ok fig) ∧
-    (∃ fig, wassersteinMatching (α := ℝ) id (Real.cos (Real.pi / 4)) (Real.sin (Real.pi / 4))
-      [] [(1, 3)] [(0, -1, 0), (-1, 0, 1)] ["a", "b"] = .ok fig) := by
-  constructor <;> rw [← isOk_iff] <;>
-  norm_num [bottleneckMatching, bottleneckMatchingWith, wassersteinMatching, wassersteinMatchingWith,
-    plotDiagrams, asList, select, labelList, matchOpts, asDgm, castDgm, finiteVals, rangeOf, autoRange,
-    List.min?_cons', List.max?_cons', argmax?, argmaxAux, segments, segment, pyGet, placeholder,
-    Except.isOk, Except.toBool]
+/-! ## 2-D landscape plots -/
+
+private lemma filterMap_if {β γ : Type} (q : β → Bool) (f : β → γ) (l : List β) :
+    (l.filterMap fun x => if q x = true then some (f x) else none) = (l.filter q).map f := by
+  induction l with
+  | nil => rfl
+  | cons x t ih =>
+    simp only [List.filterMap_cons, List.filter_cons]
+    cases hq : q x <;> simp [ih]
+
+/-- is depth `d` kept by `depth_range` (`None` / an empty range keep every depth) -/
+def keepDepth (dr : Option (List Nat)) (d : Nat) : Bool :=
+  match dr with
+  | some (k :: ks) => (k :: ks).contains d
+  | _ => true
+
+/-- **one line per kept depth**: the 2-D landscape plots add nothing but lines, all on the given axes;
+    there is exactly one per depth `k < number of depths` that `depth_range` keeps, in increasing order of
+    `k`, drawn through that depth's abscissae / ordinates and labelled `λ_k`. -/
+theorem landscape_lines_spec (fns : List (List K × List K)) (dr : Option (List Nat)) :
+    scattersOf (landscapeLines fns dr) = [] ∧
+    linesOf (landscapeLines fns dr) =
+      ((List.zip (List.range fns.length) fns).filter fun df => keepDepth dr df.1).map
+        (fun df => (Axes.given, df.2.1, df.2.2, Style.landscape, some (lambdaLabel df.1))) ∧
+    (linesOf (landscapeLines fns dr)).length = ((List.range fns.length).filter (keepDepth dr)).length ∧
+    ∀ k (hk : k < fns.length), keepDepth dr k = true →
+      (Axes.given, fns[k].1, fns[k].2, Style.landscape, some (lambdaLabel k)) ∈ linesOf (landscapeLines fns dr) := by
+  have hl : ∀ (l : List (Nat × (List K × List K))),
+      linesOf (l.map fun df => Artist.line Axes.given df.2.1 df.2.2 Style.landscape (some (lambdaLabel df.1)))
+        = l.map (fun df => (Axes.given, df.2.1, df.2.2, Style.landscape, some (lambdaLabel df.1))) ∧
+      scattersOf (l.map fun df => Artist.line Axes.given df.2.1 df.2.2 Style.landscape (some (lambdaLabel df.1))) = [] := by
+    intro l
+    induction l with
+    | nil => exact ⟨rfl, rfl⟩
+    | cons x t ih => simp [linesOf, scattersOf, ih.1, ih.2]
+  have heq : landscapeLines fns dr = ((List.zip (List.range fns.length) fns).filter fun df => keepDepth dr df.1).map
+      fun df => Artist.line Axes.given df.2.1 df.2.2 Style.landscape (some (lambdaLabel df.1)) := by
+    cases dr with
+    | none => exact filterMap_if _ _ _
+    | some l =>
+      cases l with
+      | nil => exact filterMap_if _ _ _
+      | cons k ks => exact filterMap_if _ _ _
+  have hlines := (hl ((List.zip (List.range fns.length) fns).filter fun df => keepDepth dr df.1)).1
+  refine ⟨by rw [heq]; exact (hl _).2, by rw [heq]; exact hlines, ?_, ?_⟩
+  · rw [heq, hlines, List.length_map]
+    have : ((List.zip (List.range fns.length) fns).filter fun df => keepDepth dr df.1)
+        = (List.zip ((List.range fns.length)) fns).filter ((keepDepth dr) ∘ Prod.fst) := rfl
+    rw [this, ← List.length_map (f := Prod.fst), ← List.filter_map, List.map_fst_zip (by simp)]
+  · intro k hk hkeepk
+    rw [heq, hlines, List.mem_map]
+    refine ⟨(k, fns[k]), List.mem_filter.2 ⟨?_, hkeepk⟩, rfl⟩
+    rw [List.mem_iff_getElem]
+    exact ⟨k, by simpa using hk, by simp⟩
+
+/-- the exact and the grid-sampled plots are instances: depth `k` of `plot_landscape_simple` for an exact
+    landscape goes through its critical points, for a grid landscape through
+    `linspace(start, stop, len(values[k]))` × `values[k]` -/
+theorem landscape_simple_instances (crit : List (List (K × K))) (natCast : Nat → K) (start stop : K)
+    (values : List (List K)) (dr : Option (List Nat)) :
+    landscapeExactSimple crit dr = landscapeLines (crit.map fun l => (l.map (·.1), l.map (·.2))) dr ∧
+    landscapeApproxSimple natCast start stop values dr =
+      landscapeLines (values.map fun l => (linspace natCast start stop l.length, l)) dr :=
+  ⟨rfl, rfl⟩
+
+/-- non-vacuity: three depths, `depth_range = [0, 2]` keeps two of them -/
+example : linesOf (landscapeExactSimple (α := ℚ) [[(0, 0), (1, 1), (2, 0)], [(0, 0), (2, 0)], [(1, 0)]] (some [0, 2])) =
+    [(Axes.given, [0, 1, 2], [0, 1, 0], Style.landscape, some (lambdaLabel 0)),
+     (Axes.given, [1], [0], Style.landscape, some (lambdaLabel 2))] := by decide
 
 /-! ## the model rejects only what the code rejects -/
 
@@ -449,29 +551,39 @@ theorem plotDiagrams_succeeds {cast : K → K} {arg : DgmsArg K} {o : Opts K}
   obtain ⟨r, hr⟩ := hr
   exact ⟨_, plotDiagrams_of hs hsne hr⟩
 
+private lemma range_of_two {cast : K → K} {labels : List String} (d1 d2 : Dgm K) (hd : d1 ≠ [] ∨ d2 ≠ []) :
+    ∃ r, rangeOf (matchOpts (α := K) labels).xyRange (finiteVals ([d1, d2].map (castDgm cast))) = some r := by
+  simp only [matchOpts, rangeOf]
+  rw [← Option.isSome_iff_exists, autoRange_isSome]
+  have key : ∀ (d : Dgm K), d ∈ [d1, d2] → d ≠ [] → finiteVals ([d1, d2].map (castDgm cast)) ≠ [] := by
+    intro d hd' hne
+    cases d with
+    | nil => exact absurd rfl hne
+    | cons p t =>
+      have : cast p.1 ∈ finiteVals ([d1, d2].map (castDgm cast)) :=
+        birth_mem_finiteVals (d := castDgm cast (p :: t)) (p := (cast p.1, p.2.map cast))
+          (List.mem_map_of_mem hd') (by simp [castDgm])
+      intro hnil; rw [hnil] at this; cases this
+  have hne : finiteVals ([d1, d2].map (castDgm cast)) ≠ [] := by
+    rcases hd with h | h
+    · exact key d1 (by simp) h
+    · exact key d2 (by simp) h
+  cases hfv : finiteVals ([d1, d2].map (castDgm cast)) with
+  | nil => exact absurd hfv hne
+  | cons _ _ => rfl
+
 /-- **the bottleneck matching plot succeeds on every valid request**: a non-empty matching whose indices
-    Python accepts for the (placeholder-substituted) diagrams, not both diagrams empty.  (`-1` is always
-    accepted.)  Both-empty diagrams are rejected by the code (`np.min` of nothing in `plot_diagrams`). -/
-theorem bottleneckMatching_succeeds {cast : K → K} {c s : K} {d1 d2 : FDgm K} {rows : List (Row K)}
+    Python accepts for the finite-death sub-diagrams (placeholder-substituted), not both diagrams empty.
+    (`-1` is always accepted.)  Both-empty diagrams are rejected by the code (`np.min` of nothing in
+    `plot_diagrams`).  Infinite points are welcome: their births give the range. -/
+theorem bottleneckMatching_succeeds {cast : K → K} {c s : K} {d1 d2 : Dgm K} {rows : List (Row K)}
     {labels : List String} (hrows : rows ≠ []) (hd : d1 ≠ [] ∨ d2 ≠ [])
-    (hidx : ∀ r ∈ rows, InRange (placeholder d1).length r.1 ∧ InRange (placeholder d2).length r.2.1) :
+    (hidx : ∀ r ∈ rows, InRange (placeholder (finitePart d1)).length r.1 ∧
+      InRange (placeholder (finitePart d2)).length r.2.1) :
     ∃ fig, bottleneckMatching cast c s d1 d2 rows labels = .ok fig := by
-  have hpd : ∃ pd, plotDiagrams cast (.many [asDgm d1, asDgm d2]) (matchOpts labels) = .ok pd := by
-    obtain ⟨sel, lbs, hs⟩ : ∃ sel lbs, Selected (K := K) (.many [asDgm d1, asDgm d2]) (matchOpts labels) sel lbs ∧
-        sel = [asDgm d1, asDgm d2] := ⟨_, _, ⟨rfl, rfl⟩⟩
-    obtain ⟨hs, rfl⟩ := hs
-    have hr : ∃ r, rangeOf (matchOpts (α := K) labels).xyRange
-        (finiteVals ([asDgm d1, asDgm d2].map (castDgm cast))) = some r := by
-      simp only [matchOpts, rangeOf]
-      rw [← Option.isSome_iff_exists, autoRange_isSome]
-      rcases hd with h | h
-      · cases d1 with
-        | nil => exact absurd rfl h
-        | cons p t => simp [finiteVals, asDgm, castDgm]
-      · cases d2 with
-        | nil => exact absurd rfl h
-        | cons p t => cases d1 <;> simp [finiteVals, asDgm, castDgm]
-    obtain ⟨r, hr⟩ := hr
+  have hpd : ∃ pd, plotDiagrams cast (.many [d1, d2]) (matchOpts labels) = .ok pd := by
+    have hs : Selected (K := K) (.many [d1, d2]) (matchOpts labels) [d1, d2] labels := rfl
+    obtain ⟨r, hr⟩ := range_of_two (cast := cast) (labels := labels) d1 d2 hd
     exact ⟨_, plotDiagrams_of hs (by simp) hr⟩
   obtain ⟨pd, hpd⟩ := hpd
   obtain ⟨m, hm⟩ : ∃ m, argmax? (rows.map fun r => r.2.2) = some m := by
@@ -483,33 +595,41 @@ theorem bottleneckMatching_succeeds {cast : K → K} {c s : K} {d1 d2 : FDgm K} 
   exact ⟨_, by simp only [bottleneckMatching, bottleneckMatchingWith, hpd, hm, hsegs]; rfl⟩
 
 /-- **the Wasserstein matching plot succeeds** on every matching (even an empty one, even two empty
-    diagrams) whose indices Python accepts for the placeholder-substituted diagrams. -/
-theorem wassersteinMatching_succeeds {cast : K → K} {c s : K} {d1 d2 : FDgm K} {rows : List (Row K)}
+    diagrams) whose indices Python accepts for the finite-death sub-diagrams (placeholder-substituted). -/
+theorem wassersteinMatching_succeeds {cast : K → K} {c s : K} {d1 d2 : Dgm K} {rows : List (Row K)}
     {labels : List String}
-    (hidx : ∀ r ∈ rows, InRange (placeholder d1).length r.1 ∧ InRange (placeholder d2).length r.2.1) :
+    (hidx : ∀ r ∈ rows, InRange (placeholder (finitePart d1)).length r.1 ∧
+      InRange (placeholder (finitePart d2)).length r.2.1) :
     ∃ fig, wassersteinMatching cast c s d1 d2 rows labels = .ok fig := by
   obtain ⟨segs, hsegs⟩ := segments_succeeds (c := c) (s := s) (fun _ => Style.wass) (fun _ => Axes.given) rows 0 hidx
-  have hpd : ∃ pd, plotDiagrams cast (.many [asDgm (placeholder d1), asDgm (placeholder d2)]) (matchOpts labels) = .ok pd := by
-    have hs : Selected (K := K) (.many [asDgm (placeholder d1), asDgm (placeholder d2)]) (matchOpts labels)
-        [asDgm (placeholder d1), asDgm (placeholder d2)] labels := rfl
-    have hr : ∃ r, rangeOf (matchOpts (α := K) labels).xyRange
-        (finiteVals ([asDgm (placeholder d1), asDgm (placeholder d2)].map (castDgm cast))) = some r := by
-      simp only [matchOpts, rangeOf]
-      rw [← Option.isSome_iff_exists, autoRange_isSome]
-      cases d1 <;> simp [finiteVals, asDgm, castDgm, placeholder]
-    obtain ⟨r, hr⟩ := hr
+  have hpd : ∃ pd, plotDiagrams cast (.many [placeholderD d1, placeholderD d2]) (matchOpts labels) = .ok pd := by
+    have hs : Selected (K := K) (.many [placeholderD d1, placeholderD d2]) (matchOpts labels)
+        [placeholderD d1, placeholderD d2] labels := rfl
+    have hne : placeholderD d1 ≠ [] := by cases d1 <;> simp [placeholderD]
+    obtain ⟨r, hr⟩ := range_of_two (cast := cast) (labels := labels) (placeholderD d1) (placeholderD d2) (Or.inl hne)
     exact ⟨_, plotDiagrams_of hs (by simp) hr⟩
   obtain ⟨pd, hpd⟩ := hpd
   exact ⟨_, by simp only [wassersteinMatching, wassersteinMatchingWith, hsegs, hpd]; rfl⟩
 
 
+/-- non-vacuity of the two matching theorems at `ℝ` with the real constants: diagrams WITH points of
+    infinite death, rows of all three kinds and a `(-1,-1)` row (indices refer to the finite-death points) -/
+example : (∃ fig, bottleneckMatching (α := ℝ) id (Real.cos (Real.pi / 4)) (Real.sin (Real.pi / 4))
+      [(0, none), (0, some 1), (2, some 5)] [(1, some 3), (7, none)]
+      [(0, -1, 1 / 2), (-1, 0, 1), (-1, -1, 0), (1, 0, 2)] ["a", "b"] = .ok fig) ∧
+    (∃ fig, wassersteinMatching (α := ℝ) id (Real.cos (Real.pi / 4)) (Real.sin (Real.pi / 4))
+      [(4, none)] [(1, some 3)] [(0, -1, 0), (-1, 0, 1)] ["a", "b"] = .ok fig) := by
+  refine ⟨bottleneckMatching_succeeds (by simp) (Or.inl (by simp)) ?_, wassersteinMatching_succeeds ?_⟩
+  · simp [InRange, placeholder, finitePart]
+  · simp [InRange, placeholder, finitePart]
+
 /-- non-vacuity of the three `_succeeds` theorems (at `ℝ`, with the real constants) -/
 example : (∃ fig, plotDiagrams (α := ℝ) id (.many [[(0, some 1), (1, none)], [(1 / 2, some 3)]])
       { plotOnly := some [-1, 0], labels := .one "abc" } = .ok fig) ∧
     (∃ fig, bottleneckMatching (α := ℝ) id (Real.cos (Real.pi / 4)) (Real.sin (Real.pi / 4))
-      [] [(1, 3)] [(0, -1, 0), (-1, 0, 1), (-1, -1, 0)] ["a", "b"] = .ok fig) ∧
+      [(5, none)] [(1, some 3), (2, none)] [(0, -1, 0), (-1, 0, 1), (-1, -1, 0)] ["a", "b"] = .ok fig) ∧
     (∃ fig, wassersteinMatching (α := ℝ) id (Real.cos (Real.pi / 4)) (Real.sin (Real.pi / 4))
-      [] [] [(0, 0, 0)] ["a", "b"] = .ok fig) := by
+      [] [(3, none)] [(0, 0, 0)] ["a", "b"] = .ok fig) := by
   refine ⟨plotDiagrams_succeeds ?_ (by simp [asList]) (Or.inr (by simp [asList])),
     bottleneckMatching_succeeds (by simp) (Or.inr (by simp)) ?_, wassersteinMatching_succeeds ?_⟩
   · intro l hl i hi
@@ -517,23 +637,49 @@ example : (∃ fig, plotDiagrams (α := ℝ) id (.many [[(0, some 1), (1, none)]
     subst hl
     simp only [List.mem_cons, List.not_mem_nil, or_false] at hi
     rcases hi with rfl | rfl <;> simp [InRange, asList, labelList]
-  · simp [InRange, placeholder]
-  · simp [InRange, placeholder]
+  · simp [InRange, placeholder, finitePart]
+  · simp [InRange, placeholder, finitePart]
 
 /-! ## the code before the fixes (regression witnesses) -/
 
 /-- before /repo 64802c3 (`plt.plot` in the `i == -1` branch): a row with `i = −1` lands on pyplot's
     CURRENT axes, not on the given one -/
 theorem old_axes_counterexample :
-    (match bottleneckMatchingOld (α := Int) id 1 1 [(0, 1)] [(1, 3)] [(0, -1, 1), (-1, 0, 2)] ["a", "b"] with
+    (match bottleneckMatchingOld (α := Int) id 1 1 [(0, some 1)] [(1, some 3)] [(0, -1, 1), (-1, 0, 2)] ["a", "b"] with
       | .ok fig => fig.artists.any fun a => decide (axesOf a = .current)
       | .error _ => false) = true ∧
-    (match wassersteinMatchingOld (α := Int) id 1 1 [(0, 1)] [(1, 3)] [(0, -1, 1), (-1, 0, 2)] ["a", "b"] with
+    (match wassersteinMatchingOld (α := Int) id 1 1 [(0, some 1)] [(1, some 3)] [(0, -1, 1), (-1, 0, 2)] ["a", "b"] with
       | .ok fig => fig.artists.any fun a => decide (axesOf a = .current)
       | .error _ => false) = true ∧
-    (match bottleneckMatching (α := Int) id 1 1 [(0, 1)] [(1, 3)] [(0, -1, 1), (-1, 0, 2)] ["a", "b"] with
+    (match bottleneckMatching (α := Int) id 1 1 [(0, some 1)] [(1, some 3)] [(0, -1, 1), (-1, 0, 2)] ["a", "b"] with
       | .ok fig => fig.artists.all fun a => decide (axesOf a = .given)
       | .error _ => false) = true := by decide
+
+/-- before /repo 3ef18e2 the rows indexed the diagrams AS PASSED although `bottleneck` / `wasserstein`
+    number only the points with finite death: for `dgm1 = [(0,∞), (1,2)]`, `dgm2 = [(1,3)]` and the row
+    `(0, 0)` returned for them, the segment must join `(1,2)` and `(1,3)`; the old code drew it from
+    `(0, ∞)` (the stand-in `1000` plays the float `inf`).  The scatter plots are the same. -/
+theorem old_matching_index_counterexample :
+    (match bottleneckMatching (α := Int) id 1 1 [(0, none), (1, some 2)] [(1, some 3)] [(0, 0, 1)] ["a", "b"] with
+      | .ok fig => decide ((linesOf fig.artists).filter (fun l => decide (l.2.2.2.1 = Style.matchMax))
+          = [(Axes.given, [1, 1], [2, 3], Style.matchMax, none)])
+      | .error _ => false) = true ∧
+    (match bottleneckMatchingIdxOld (α := Int) 1000 id 1 1 [(0, none), (1, some 2)] [(1, some 3)] [(0, 0, 1)] ["a", "b"] with
+      | .ok fig => decide ((linesOf fig.artists).filter (fun l => decide (l.2.2.2.1 = Style.matchMax))
+          = [(Axes.given, [0, 1], [1000, 3], Style.matchMax, none)])
+      | .error _ => false) = true ∧
+    (match wassersteinMatching (α := Int) id 1 1 [(0, none), (1, some 2)] [(1, some 3)] [(0, 0, 1)] ["a", "b"] with
+      | .ok fig => decide ((linesOf fig.artists).filter (fun l => decide (l.2.2.2.1 = Style.wass))
+          = [(Axes.given, [1, 1], [2, 3], Style.wass, none)])
+      | .error _ => false) = true ∧
+    (match wassersteinMatchingIdxOld (α := Int) 1000 id 1 1 [(0, none), (1, some 2)] [(1, some 3)] [(0, 0, 1)] ["a", "b"] with
+      | .ok fig => decide ((linesOf fig.artists).filter (fun l => decide (l.2.2.2.1 = Style.wass))
+          = [(Axes.given, [0, 1], [1000, 3], Style.wass, none)])
+      | .error _ => false) = true ∧
+    (match bottleneckMatching (α := Int) id 1 1 [(0, none), (1, some 2)] [(1, some 3)] [(0, 0, 1)] ["a", "b"],
+           bottleneckMatchingIdxOld (α := Int) 1000 id 1 1 [(0, none), (1, some 2)] [(1, some 3)] [(0, 0, 1)] ["a", "b"] with
+      | .ok f, .ok g => decide (scattersOf f.artists = scattersOf g.artists)
+      | _, _ => false) = true := by decide
 
 /-- before /repo 59a7acc (`plot_only` applied before a single string label is broadcast):
     `labels="abc", plot_only=[1]` labels the scatter `"b"`, and `labels="a"` raises `IndexError` -/
